@@ -77,7 +77,10 @@ def check(run):
     for m_ in mods.values():
         for fname, fn_ in m_.functions.items():
             nfresh += fresh_per_iteration(run, 'C08-R6', m_.name.split('.')[-1], m_, fn_, describe=False)
-    run.floor('C08-R6', 1)
+    if nfresh == 0:
+        run.subject('C08-R6')
+        run.undecided('C08-R6', 'converters', 'no object written and handed on per loop iteration was recognised')
+    _r8(run, inst)
     from ..cachekey import check_caches
     check_caches(run, list(mods.values()) + [inst], 'C08-K', prog=prog)
 
@@ -715,6 +718,65 @@ def _r7(run, mods):
 
 
 
+def _r8(run, inst):
+    """R8: the thermal-CX converter repeats the (ne, te) table unchanged along the new donor-temperature axis: data[i, j, k] == rate[i, j].
+    Decided by applying numpy's own tile / repeat / reshape / broadcasting to a 2 x 3 table of symbols (sa/npsym.py)."""
+    from ..npsym import NpEval, Unknown, tokens
+    import numpy as _np
+    run.describe('C08-R8', 'ADF15 thermal CX: the 3D table is the 2D table broadcast along the donor-temperature axis (data[i, j, k] == rate[i, j])')
+    fn = inst.functions.get('_thermalcx_adf15_2dto3d_converter')
+    run.subject('C08-R8')
+    if fn is None:
+        raise AnalysisError('anchored function vanished: _thermalcx_adf15_2dto3d_converter')
+    K = 'cherab.openadas.install|_thermalcx_adf15_2dto3d_converter|'
+    # the innermost loop body builds one record from `rate`
+    loops = [l for l in ast.walk(fn) if isinstance(l, ast.For)]
+    inner = [l for l in loops if not any(isinstance(x, ast.For) and x is not l for x in ast.walk(l))]
+    if not inner:
+        run.undecided('C08-R8', 'converter', 'loop over the transitions not found')
+        return
+    body = inner[0].body
+    recs = [st for st in body if isinstance(st, ast.Assign) and isinstance(st.value, ast.Dict)]
+    rate_key = None
+    for st in recs:
+        for k, v in zip(st.value.keys, st.value.values):
+            if isinstance(k, ast.Constant) and k.value == 'rate':
+                rate_key = v
+    if rate_key is None:
+        run.undecided('C08-R8', 'converter', "record with a 'rate' entry not found")
+        return
+    src = [x for x in ast.walk(inner[0]) if isinstance(x, ast.Subscript) and isinstance(x.slice, ast.Constant) and x.slice.value == 'rate' and isinstance(x.ctx, ast.Load)]
+    if not src:
+        run.undecided('C08-R8', 'converter', "source table <x>['rate'] not found")
+        return
+    rname = norm(src[0].value)
+    R = tokens('r', (2, 3))
+    ev = NpEval(env={"%s['rate']" % rname: R, "%s['ne']" % rname: tokens('n', (2,)), "%s['te']" % rname: tokens('t', (3,))})
+    pre = [st for st in body if st.lineno < recs[-1].lineno and not (isinstance(st, ast.Assign) and isinstance(st.value, ast.Dict))]
+    try:
+        ev.run(pre)
+        got = ev.ev(rate_key)
+    except Unknown as e:
+        run.undecided('C08-R8', 'converter', 'construction of the 3D table not interpreted: %s' % e)
+        return
+    except Exception as e:
+        run.fail('C08-R8', K + 'shape', inst.relpath, inner[0].lineno,
+                 'the construction of the 3D table fails for a 2 x 3 table (%s: %s)' % (type(e).__name__, str(e)[:80]))
+        return
+    if not isinstance(got, _np.ndarray) or got.ndim != 3 or got.shape[:2] != (2, 3):
+        run.fail('C08-R8', K + 'shape', inst.relpath, inner[0].lineno,
+                 'the converted table has shape %s for a (2, 3) table; documented (ne, te, td)' % (getattr(got, 'shape', None),))
+        return
+    wrong = [(i, j, k) for i in range(2) for j in range(3) for k in range(got.shape[2]) if got[i, j, k] != R[i, j]]
+    if wrong:
+        i, j, k = wrong[0]
+        run.fail('C08-R8', K + 'scrambled', inst.relpath, inner[0].lineno,
+                 'the converted table is not the 2D table repeated along the donor-temperature axis: entry [%d, %d, %d] holds the input entry %s, '
+                 'expected [%d, %d] (%d of %d entries differ)' % (i, j, k, got[i, j, k], i, j, len(wrong), got.size))
+    else:
+        run.ok('C08-R8', 'thermal CX 3D table', 'data[i, j, k] == rate[i, j] for a 2 x 3 table of symbols, %d donor temperatures' % got.shape[2])
+
+
 def _r3(run, m15):
     run.describe('C08-R3', 'the three ADF15 header scrapers agree after level extraction; regex groups used <= groups defined')
     names = ['_scrape_metadata_hydrogen', '_scrape_metadata_hydrogen_like', '_scrape_metadata_full']
@@ -1214,6 +1276,9 @@ _A22 = PD + 'adf22.py'
 _UT = PD + 'utility.py'
 _IN = 'cherab/openadas/install.py'
 MUTANTS = [
+    dict(name='thermalcx-table-tiled-then-reshaped', file='cherab/openadas/install.py',
+         find="                data = np.empty((len(rate['ne']), len(rate['te']), 2))\n                data[:, :, :] = rate['rate'][:, :, None]\n",
+         replace="                data = np.tile(rate['rate'], 2).reshape((len(rate['ne']), len(rate['te']), 2))\n", expect='C08-R8'),
     dict(name='base-conversion-inverse-multiplies', file='cherab/core/utility/conversion.py',
          find="        return x / cls.conversion_factor\n", replace="        return x * cls.conversion_factor\n", occurrence=0, of=1, expect='C08-R2'),
     dict(name='adf11-z1-single-digit-capture', file='cherab/openadas/parse/adf11.py',
@@ -1246,6 +1311,12 @@ MUTANTS = [
 ]
 MUTANTS = [m for m in MUTANTS if m.get('expect')]
 TWINS = [
+    dict(name='thermalcx-table-repeated-then-reshaped', file='cherab/openadas/install.py',
+         find="                data = np.empty((len(rate['ne']), len(rate['te']), 2))\n                data[:, :, :] = rate['rate'][:, :, None]\n",
+         replace="                data = np.repeat(rate['rate'], 2).reshape((len(rate['ne']), len(rate['te']), 2))\n"),
+    dict(name='thermalcx-table-stacked', file='cherab/openadas/install.py',
+         find="                data = np.empty((len(rate['ne']), len(rate['te']), 2))\n                data[:, :, :] = rate['rate'][:, :, None]\n",
+         replace="                data = np.stack([rate['rate'], rate['rate']], axis=-1)\n"),
     dict(name='adf11-z1-capture-group', file='cherab/openadas/parse/adf11.py',
          find='                z1_pos = re.search(r"Z1\\s*=*\\s*[0-9]+\\s*", lines[i]).group()  # get Z1 part\n                ion_charge = int(re.sub(r"Z1[\\s*=]", "", z1_pos))',
          replace='                ion_charge = int(re.search(r"Z1\\s*=*\\s*(\\d{1,3})", lines[i]).group(1))'),
